@@ -363,6 +363,9 @@ def compare(c, i, m):
 def extra_oracle(c, i):
     if c.meta.get("kind") == "malformed":
         return None
+    if i.startswith("(L (N 94)"):
+        return ("the first instance did not come up: execute() did not return, or nobody answered 'whoami' on its control socket "
+                "within 20 s")
     an = analyse(c, i)
     if an is None:
         return None
